@@ -1,14 +1,64 @@
 # Table for gen_manifest.py.  claim(id, category, level text, level note, technique, design ref); na(id, reason)
 
+OTHER = ("Level 'other': structural necessary conditions of the property, decided from the source for every input / schedule / configuration at once "
+         "(the quantifier the tests cannot reach); it is not a decision of the numeric behaviour. ")
+
+claim("C01", "other",
+      OTHER + "Decides the three premises of the snap-rounding argument: every vertex of every ring is in the hot-pixel set before any edge is routed and only insertCoord writes that set (R05, R08); every edge incl. the closing edge is routed through the index and input coordinates can never reach an output structure (R06, R07 provenance/confinement by SSA value flow); pixel ownership tables and conversions agree (R03, R01). Not decided: numeric correctness of lineIntersects, edges invented by spike removal (F5).",
+      "Trusts go-spatial geom.Polygon.LinearRings to return all rings.",
+      "who-may-write + must-pass-through on SSA; interprocedural value-flow confinement; derived table cross-check", "DESIGN.md 4/C01, rules R01 R03 R05-R08")
+claim("C02", "other",
+      OTHER + "Decides: intersection point is (x,y) not (x,x) (R01, found and fixed); x/y formulas mirror each other with no cross-axis operand (R02); the six encodings of the half-open pixel agree, derived from Extent.Vertices/Edges (R03); shape of the 2x2 quadrant decision table: certain only for an endpoint inside the parent, mutex only for the two adjacent quadrants of the diagonal case, order of travel (R04). Not decided: float intersection numerics, exhaustive tie enumeration.",
+      "Geometry of a segment in a 2x2 split is the oracle of R04.",
+      "typed-AST symmetry check under axis substitution; derived-table agreement; decision-table shape with path conditions", "DESIGN.md 4/C02, rules R01-R04")
+claim("C03", "other",
+      OTHER + "Decides that every output coordinate is ToGeomPoint of a stored Quadrant.intCentroid written only from getQuadrantExtentAndCentroid (R07), whose x and y formulas are symmetric (R02), and that both copies of level = id + log2(tile width) + log2(16) agree (R09). Not decided: the arithmetic itself and the deviation bound.",
+      "", "SSA provenance (who-may-write fields, who-may-convert), sibling expression agreement", "DESIGN.md 4/C03")
+claim("C04", "other",
+      OTHER + "Claims clause 1 only (every output vertex is the pixel centre of some input vertex): outputs are centroids of stored quadrants (R07), stored only by insertCoord for addresses computed from polygon vertices after the range check (R08, R05). Clauses 2 and 3 (half-pixel distance, coverage equivalence) are geometric and not decided.",
+      "", "SSA provenance + ownership (who-may-call / who-may-write)", "DESIGN.md 4/C04")
+claim("C05", "other",
+      OTHER + "Decides the policy clauses: present tile matrix => at least one polygon (R11); rings < 3 vertices diverted before de-duplication and splitting, emitted only under keep-points-and-lines after the polygons, level dropped only when the shell collapses (R12); reversal is the last transformation and covers every ring (R13); each option read only where it acts (R14); no lossy int->float->int round trip for the repeated-vertex lookup (R10, found and fixed). Not decided: simplicity/orientation of split rings for every input.",
+      "", "dominance on SSA, guard matching on typed AST, site classification of float->int conversions on the call graph", "DESIGN.md 4/C05")
+claim("C07", "other",
+      OTHER + "Determinism clause complete: no goroutine/channel/select/random/time/os/runtime/sync/unsafe/global store on the snapping call graph incl. dependencies (R16), and every map range and maps.Keys on it is proven order-independent (R15: per-key stores with injective keys, set insertion, key-addressed callee effects via bottom-up write-effect summaries, append-only collections whose uses are order-insensitive, followed across calls); same below ProcessFeatures (R15p). Reverse flag: R13, R14. Clause 2 only as necessary condition (rings normalised first).",
+      "Callee read effects are not tracked (R18 covers cross-level reads). Standard library classified by table.",
+      "commutativity analysis of map-range loops on SSA with interprocedural effect summaries; call-graph deny-list", "DESIGN.md 4/C07, rules R15 R16")
+claim("C08", "other",
+      OTHER + "Decides: result keyed by requested ids only (R20); each of the 40+ accesses to level-indexed state uses the current level / root level / descent counter, incl. one hop through parameters (R18); the requested set only selects what is recorded, never steers the descent; a level is dropped only for its own ring result (R19); shared level arithmetic (R09). Not decided: independence of coarser addresses from the deepest level (the property's own divisibility precondition).",
+      "", "enumeration of typed map accesses with key-role classification; use-classification of the level-set parameter", "DESIGN.md 4/C08")
 claim("C09", "other",
-      "Static decision, for all polygons/flags/grids, of the structural clauses of outside-grid rejection: every quotient feeding the range check has a numerator proven non-negative by an earlier rejection (R21, the F2 defect class), every vertex is range-checked before anything is stored or snapped (R05, R08), both axes are treated alike (R02, R03), and a failed check ends in panic or a fresh empty map with snapping unreachable, the quiet exit only under IgnoreOutsideGrid for an OutsideGridError (R22, R14). Not decided: sub-1e-10 offsets and the exact position of the right/top border on grids that do not divide evenly (arithmetic).",
+      OTHER + "Decides: every quotient feeding the range check has a numerator proven non-negative by an earlier rejection (R21, the F2 defect, found and fixed); every vertex is range-checked on all four sides and both axes before anything is stored or snapped (R05, R08, R02, R03); a failed check ends in panic or a fresh empty map, snapping unreachable, quiet exit only for OutsideGridError under IgnoreOutsideGrid (R22, R14). Not decided: sub-1e-10 offsets; right/top border on grids that do not divide evenly.",
       "Assumes go-spatial geom.Polygon.LinearRings returns all rings.",
-      "SSA path search + AST guard matching (must-pass-through, who-may-call)", "DESIGN.md section 4 C09")
+      "AST guard matching for truncating division; edge-sensitive SSA path search (must-not-reach on error edges)", "DESIGN.md 4/C09")
+claim("C10", "other",
+      OTHER + "Decides for all streams and schedules: exactly one delivery per (feature, tile matrix in the result) carrying the received feature, that key and that key's geometry; default arm forwards untouched geometry once per id; router sends exactly once per feature on the channel chosen by TileMatrixID (R28, path counting per loop iteration on SSA); transparent wrapper (R29); multipolygon merge per id (R30); absent <=> no geometry (R11); per-target order from single sender/consumer (R23, R24); no in-place write to shared column storage (R27, found and fixed); map order cannot change deliveries (R15p).",
+      "Snapped geometry itself is C01-C09.",
+      "per-iteration exactly-once path counting on SSA; channel value-flow; shared-slice write detection with canary", "DESIGN.md 4/C10")
+claim("C11", "other",
+      OTHER + "Decides the premises of termination and join for all interleavings: single sender closes each channel once, outside loops, on every normal path after its sends (R23); every consumer incl. every module Target drains until close (R24); Add dominates go, Done deferred first, Wait before every return, closes before Wait, outer group joins the router (R25); all go statements joined or tail-terminating (R26); captured variables not reassigned, shared feature storage not written (R27). Acyclic stage graph + close at end + drain until close => terminates on finite input, ProcessFeatures returns only after every WriteFeatures returned.",
+      "database/sql trusted goroutine-safe; Go memory model trusted.",
+      "channel/wait-group typestate via SSA value flow, dominance and post-dominance on normal-return paths", "DESIGN.md 4/C11")
+claim("C12", "other",
+      OTHER + "Decides row completeness for every (count, page size > 0): go/cfg typestate of the page buffer (empty/dirty/flushed/mixed) — every appended feature flushed exactly once before return (R31); one INSERT per flushed feature through a statement prepared on the page's transaction, committed on every normal path, extent over every feature merged after commit (R32); column order agreement between reader and writer (R33). Not decided: SQLite/SpatiaLite behaviour.",
+      "", "typestate dataflow on go/cfg; per-iteration path counting on SSA; sibling agreement of SQL builders", "DESIGN.md 4/C12")
+claim("C13", "other",
+      OTHER + "Decides the plumbing for all flag combinations: flags declared once, read with declared kind, each snap.Config field from the flag named after it, page size reaches TargetGeopackage.pagesize, overwrite guards os.Remove (R34, R14); same-typed arguments not swapped (R35); validation gates all work, one target per validated id named and keyed by it, remove before init on the same path, tables switched before and untouched after each run (R36); quadtree gate first (R37). Not decided: path.Split/Ext corner cases, SQLite.",
+      "Per-table content follows from C10-C12.",
+      "flag-table agreement on typed AST; SSA value flow flag->field; edge-sensitive dominance", "DESIGN.md 4/C13")
+claim("C14", "other",
+      OTHER + "Decides: no shape-assuming code before IsQuadTree accepted the set and its error is returned (R37a, found and fixed); every explicit panic reachable from validation is excluded by an IsQuadTree check on the same field; all guards on VariableMatrixWidths use one emptiness predicate (R37c, found and fixed); IsQuadTree covers the complete sorted id set and enforces all ten conditions for every matrix, pairwise ones only under previous != nil (R38); shared level arithmetic (R09). Not decided: verdicts on the 14 shipped documents; first id 0 / 1x1 root.",
+      "", "call-graph reachability + edge-sensitive dominance; contradiction rule on predicates; condition inventory with role-resolved operands", "DESIGN.md 4/C14")
+claim("C15", "other",
+      OTHER + "Decides pairing clauses only: width-flavoured operands on the x side and height-flavoured on the y side in the four addressing functions (R02); identical corner-of-origin case analysis and sign convention, one common ToXYPoint (R42). Not decided: rounding at tile borders, EPSG axis table content.",
+      "", "axis-flavour check on typed AST; sibling switch agreement", "DESIGN.md 4/C15")
+claim("C16", "other",
+      OTHER + "Decides: reader/writer JSON key sets agree for every hand-written codec, json:\"-\" fields are the re-added specials, CRS variants mutually exclusive on required keys (R39, found and fixed); decode has only checked assertions, in-range submatch indices (regexp/syntax), comma-ok lookups, no success without validate.Struct, positivity/required tags, integer ids with error returned, no explicit panic on the decode graph (R40). Not decided: marshmallow/validator internals.",
+      "", "derived key-table comparison; idiom inventory on the decode call graph", "DESIGN.md 4/C16")
+claim("C17", "proof",
+      "Proof by abstract interpretation over all 2^64 address pairs: a bit-provenance domain (each result bit is 0, 1, a copy of one input bit, or mixed) is executed over the SSA of morton.ToZ/FromZ with loops unrolled on their constant counters and the mask tables read from the source. Obligations: interleave map exact (=> injective), FromZ inverts it, ToZ>>2 = ToZ of halved addresses, ok <=> both fit 32 bits (truth table), MustToZ panics iff !ok, callers use the checked encoder, tables immutable, 64-bit words. All must be discharged; any unsupported instruction yields no verdict and fails.",
+      "Trusted: go/ssa translation, the ~60 lines of transfer functions, uint = 64 bit on amd64.",
+      "bit-level abstract interpretation (known-bits / provenance) of the SSA", "DESIGN.md 4/C17, rule R41")
 
-_pending = "check under construction in this session (rules designed in DESIGN.md section 3/4, not yet implemented); not claimed until its evidence is produced by the checker"
-for _p in ["C01", "C02", "C03", "C04", "C05", "C07", "C08", "C10", "C11", "C12", "C13", "C14", "C15", "C16", "C17"]:
-    if _p not in CLAIMED:
-        na(_p, _pending)
-
-na("C06", "totality (no panic, no hang) needs arithmetic invariants of the hand-rolled KMP bookkeeping and a progress proof for a loop whose index is assigned computed values; no sound static argument in reach (the compiler's own BCE pass leaves 47 bounds checks in snap.go unproven) and an inventory of panic sites would only detect change")
-na("C18", "equality of signed areas and edge sets produced by data-dependent ring surgery (KMP de-duplication, stack-based splitting, shell/hole cancellation); every clause quantifies over runtime point sequences and no clause is visible in the shape of the code")
+na("C06", "totality (no panic, no hang) needs arithmetic invariants of the hand-rolled KMP bookkeeping and a progress proof for a loop whose index is assigned computed values; no sound static argument in reach (the compiler's own BCE pass leaves 47 bounds checks in snap.go unproven) and an inventory of panic sites would only detect change. The size guards that are structural (R12) are reported under C05.")
+na("C18", "equality of signed areas and edge sets produced by data-dependent ring surgery (KMP de-duplication, stack-based splitting, shell/hole cancellation, hole matching); every clause quantifies over runtime point sequences and no clause is visible in the shape of the code. The only structural fact nearby (no vertex is invented, R07) is claimed under C04.")
